@@ -98,11 +98,31 @@ fn main() {
         };
         let iter: Vec<_> = doc.page_iter().collect();
         let pages = doc.get_pages();
+        // size_hint of the fresh iterator and after every page it returns
+        let mut it = doc.page_iter();
+        let h0 = it.size_hint();
+        let mut steps: Vec<(ObjectId, (usize, Option<usize>))> = vec![];
+        while let Some(id) = it.next() {
+            steps.push((id, it.size_hint()));
+            if steps.len() > doc.objects.len() + 1 {
+                break;
+            }
+        }
+        let hint_sx = |h: &(usize, Option<usize>)| -> Vec<Sx> {
+            vec![Sx::num(h.0), h.1.map(Sx::num).unwrap_or_else(|| Sx::id("none"))]
+        };
+        let mut hints = vec![Sx::L(hint_sx(&h0))];
+        for (id, h) in &steps {
+            let mut v = vec![oid_to_sx(*id)];
+            v.extend(hint_sx(h));
+            hints.push(Sx::L(v));
+        }
         let res = Sx::tagged(
             "pages",
             vec![
                 Sx::L(iter.iter().map(|id| oid_to_sx(*id)).collect()),
                 Sx::L(pages.iter().map(|(n, id)| Sx::L(vec![Sx::num(n), oid_to_sx(*id)])).collect()),
+                Sx::tagged("hints", hints),
             ],
         );
         // direct property evaluation
@@ -127,12 +147,61 @@ fn main() {
         if iter.len() > doc.objects.len() {
             verdict = "FAIL more pages than objects".into();
         }
+        // stepping the iterator by hand sees the same pages as collect(), and nth(k) is page k+1
+        if steps.iter().map(|(id, _)| *id).collect::<Vec<_>>() != iter {
+            verdict = "FAIL stepping page_iter by hand differs from collecting it".into();
+        }
+        for k in [0, 1, iter.len() / 2, iter.len().saturating_sub(1), iter.len()] {
+            if doc.page_iter().nth(k) != iter.get(k).copied() {
+                verdict = format!("FAIL page_iter().nth({}) is not page {} of the enumeration", k, k + 1);
+            }
+            if pages.get(&(k as u32 + 1)) != iter.get(k) {
+                verdict = format!("FAIL get_pages()[{}] is not page {} of the enumeration", k + 1, k + 1);
+            }
+        }
+        // size_hint, on any document: the promised upper bound holds at every observed state and lower <= upper
+        let all_hints: Vec<(usize, Option<usize>)> = std::iter::once(h0).chain(steps.iter().map(|(_, h)| *h)).collect();
+        for (k, (lo, hi)) in all_hints.iter().enumerate() {
+            let remaining = iter.len().saturating_sub(k);
+            match hi {
+                Some(hi) if *hi < remaining => {
+                    verdict = format!("FAIL size_hint promises at most {} more pages after page {}, {} follow", hi, k, remaining)
+                }
+                Some(hi) if lo > hi => verdict = format!("FAIL size_hint lower bound {} above upper bound {}", lo, hi),
+                _ => {}
+            }
+        }
         // depth-first order, twice independently: the harness's own walk over the object graph (whenever that graph is
         // a proper tree within the documented height) and the leaf list the generator recorded while building the tree
         let own = own_dfs(&doc);
         if let Some((want, h)) = &own {
             if *h <= DEPTH_LIMIT + 1 && *want != iter {
                 verdict = format!("FAIL page_iter {:?} differs from the depth-first leaves {:?} (harness walk)", iter, want);
+            }
+        }
+        let exact_counts = a.get(2).map(|f| f.tag() == Some("flags") && f.args().iter().any(|x| x.is_id("exact-counts"))).unwrap_or(false);
+        if let Some((want, h)) = &own {
+            if *h <= DEPTH_LIMIT + 1 {
+                // a represented tree whose Count entries are right: the lower bound is the number of pages to come
+                if exact_counts {
+                    for (k, (lo, _)) in all_hints.iter().enumerate() {
+                        if *lo != want.len().saturating_sub(k) {
+                            verdict = format!("FAIL size_hint after page {} is {}, {} pages follow (all Count entries are exact)", k, lo, want.len().saturating_sub(k));
+                        }
+                    }
+                }
+                // deleting page k leaves the other pages in their order (page numbers address the enumeration)
+                if !want.is_empty() {
+                    let k = want.len() / 2;
+                    let mut d2 = doc.clone();
+                    d2.delete_pages(&[k as u32 + 1]);
+                    let mut left = want.clone();
+                    left.remove(k);
+                    let got: Vec<_> = d2.page_iter().collect();
+                    if got != left {
+                        verdict = format!("FAIL after delete_pages([{}]) the enumeration is {:?}, expected {:?}", k + 1, got, left);
+                    }
+                }
             }
         }
         if let Some(exp) = a.get(1) {
